@@ -49,6 +49,9 @@ class State:
         self.pool = MG.build_gt_frames(case)
         self.mgr.ground_truth_frames = self.pool
         self.pool_snap = [self._snap(f) for f in self.pool]
+        # the frames' critical filters / pass-fail configurations are prepared up front and re-used by the add steps
+        self.crits = [MG.crit_config(self.mgr, case, f) for f in case["frames"]]
+        self.pfs = [MG.pf_config(self.mgr, case, f) for f in case["frames"]]
         self.calls = []  # (op, summary)
         self.n_scene = 0
         self.reeval_other_filter = False
@@ -76,8 +79,10 @@ def est_variant(f, ev):
     return est
 
 
-def do_add(ctx, mgr, pool, d, op, frame):
-    """One add_frame_result call as a caller would make it; returns (frame_result, est_objects, gt_frame)."""
+def do_add(ctx, mgr, pool, d, op, frame, prepared=None):
+    """One add_frame_result call as a caller would make it; returns (frame_result, est_objects, gt_frame).
+    `prepared` = (critical configs, pass/fail configs) built up front for the manager `mgr` (used unless the op asks for
+    a permuted label order, which builds its own configuration)."""
     i = op["f"]
     f = d["frames"][i]
     t = D.T0 + i * 100_000
@@ -102,8 +107,8 @@ def do_add(ctx, mgr, pool, d, op, frame):
             unix_time=t,
             ground_truth_now_frame=now,
             estimated_objects=passed,
-            critical_object_filter_config=MG.crit_config(mgr, d, cf),
-            frame_pass_fail_config=MG.pf_config(mgr, d, d["frames"][op["p"]]),
+            critical_object_filter_config=prepared[0][op["c"]] if prepared is not None and not op.get("perm") else MG.crit_config(mgr, d, cf),
+            frame_pass_fail_config=prepared[1][op["p"]] if prepared is not None else MG.pf_config(mgr, d, d["frames"][op["p"]]),
         )
     if res is None:
         return None
@@ -180,7 +185,7 @@ def check_pool(ctx, st_):
 def apply_op(ctx, st_, op):
     d = st_.d
     if op["op"] == "add":
-        out = do_add(ctx, st_.mgr, st_.pool, d, op, st_.frame)
+        out = do_add(ctx, st_.mgr, st_.pool, d, op, st_.frame, prepared=(st_.crits, st_.pfs))
         if out is None:
             return
         res, ests, gtf = out
@@ -475,3 +480,115 @@ def interpolated_frame_evaluation(ctx, dd):
         ctx.require(s1[key] == s2[key], f"interpolated-frame-differs:{key}", lambda: f"evaluating the interpolated frame gives {key} = {s1[key]}, an equal frame built from scratch gives {s2[key]}")
     a, b = MG.summarize_score(r1.metrics_score), MG.summarize_score(r2.metrics_score)
     MG.compare_scores(ctx, a, b, "interpolated-frame-differs", tol=1e-9)
+
+
+# ------------------------------------------------------------------------------------------------
+# the classification pipeline (ROI-less 2D objects paired by uuid / label): the same history clauses through a real
+# classification2d manager — re-evaluating a frame after other frames, a fresh manager, and scene score = pooled frames
+# ------------------------------------------------------------------------------------------------
+
+
+def _cls_cases(tier):
+    from checks import c11
+
+    return c11._case(3).filter(lambda d: "animal" not in d["targets"] and len(d["frames"]) >= 2)
+
+
+def _cls_manager(d):
+    import perception_eval.manager._evaluation_manager_base as B
+    from perception_eval.config import PerceptionEvaluationConfig
+    from perception_eval.manager import PerceptionEvaluationManager
+    from vlib.harness import proc_tmp
+
+    cfg = {
+        "evaluation_task": "classification2d",
+        "target_labels": list(d["targets"]),
+        "label_prefix": "traffic_light" if d["fam"] == "tl" else "autoware",
+        "merge_similar_labels": False,
+        "allow_matching_unknown": False,
+        "uuid_matching_first": bool(d["uf"]),
+    }
+    cams = sorted({t[0] for f in d["frames"] for t in f["est"] + f["gt"]}) or ["cam_front"]
+    c = PerceptionEvaluationConfig(dataset_paths=[MG.SAMPLE], frame_id=cams, result_root_directory=proc_tmp(), evaluation_config_dict=cfg)
+    orig = B.load_all_datasets
+    B.load_all_datasets = lambda **kw: []
+    try:
+        return PerceptionEvaluationManager(c)
+    finally:
+        B.load_all_datasets = orig
+
+
+@CHECK.given("classification_histories", _cls_cases, quick=120, thorough=6000)
+def classification_histories(ctx, d):
+    from perception_eval.common.dataset import FrameGroundTruth
+    from perception_eval.evaluation.result.perception_frame_config import CriticalObjectFilterConfig, PerceptionPassFailConfig
+
+    fam = "tl" if d["fam"] == "tl" else "autoware"
+    frames = d["frames"]
+    order = list(range(len(frames))) + [0]  # every frame once, then the first frame again
+
+    def objs(triples, t, score):
+        return [D.obj2d({"cam": c, "roi": None, "label": lab, "fam": fam, "uuid": u, "score": score}, t) for (c, u, lab) in triples]
+
+    def run(mgr, idxs):
+        out = []
+        for k, i in enumerate(idxs):
+            t = D.T0 + i * 100_000
+            f = frames[i]
+            ests = objs(f["est"], t, 0.9)
+            passed = list(ests)
+            res = None
+            with ctx.under_test("add_frame_result(classification2d)"):
+                gtf = FrameGroundTruth(t, str(i), objs(f["gt"], t, 1.0))
+                res = mgr.add_frame_result(
+                    unix_time=t,
+                    ground_truth_now_frame=gtf,
+                    estimated_objects=passed,
+                    critical_object_filter_config=CriticalObjectFilterConfig(evaluator_config=mgr.evaluator_config, target_labels=list(d["targets"])),
+                    frame_pass_fail_config=PerceptionPassFailConfig(evaluator_config=mgr.evaluator_config, target_labels=list(d["targets"])),
+                )
+            if res is None:
+                return None
+            ctx.require(len(passed) == len(ests) and all(a is b for a, b in zip(passed, ests)), "estimate-list-mutated", "add_frame_result changed the caller's estimate list")
+            pairs = sorted((str(r.estimated_object.frame_id), r.estimated_object.uuid, None if r.ground_truth_object is None else r.ground_truth_object.uuid) for r in res.object_results)
+            sc = res.metrics_score.classification_scores
+            summ = None if not sc else tuple(sc[0]._summarize())
+            out.append({"i": i, "pairs": pairs, "n_gt": len(res.frame_ground_truth.objects), "score": summ, "res": res})
+        return out
+
+    m1 = _cls_manager(d)
+    h = run(m1, order)
+    if h is None:
+        return
+    first, again = h[0], h[-1]
+
+    def same_score(a, b):
+        if a is None or b is None:
+            return a is b
+        return all((x == y) or (isinstance(x, float) and isinstance(y, float) and (x != x and y != y or abs(x - y) <= 1e-12)) for x, y in zip(a, b))
+
+    ctx.cls("fam_" + fam)
+    if any(p[2] is None for e in h for p in e["pairs"]):
+        ctx.cls("has_result_without_gt")
+    ctx.mark_nontrivial(len(frames) >= 2 and sum(1 for e in h for p in e["pairs"] if p[2] is not None) >= 2)
+    ctx.require(first["pairs"] == again["pairs"] and first["n_gt"] == again["n_gt"], "history-dependent:pairs", lambda: f"frame 0 evaluated first gives results {first['pairs']}; evaluated again after {len(frames) - 1} other frame(s) on the same manager {again['pairs']}")
+    ctx.require(same_score(first["score"], again["score"]), "history-dependent:classification-score", lambda: f"frame 0: {first['score']} first, {again['score']} when evaluated again later")
+    # a brand-new manager evaluating only the last frame of the history
+    m2 = _cls_manager(d)
+    last = order[-2]
+    h2 = run(m2, [last])
+    if h2 is not None:
+        ref = h[len(order) - 2]
+        ctx.require(ref["pairs"] == h2[0]["pairs"], "history-dependent:fresh-manager", lambda: f"frame {last} after {len(order) - 2} earlier evaluation(s): {ref['pairs']}; on a fresh manager: {h2[0]['pairs']}")
+    # scene score pools the frame results
+    scene = None
+    with ctx.under_test("get_scene_result(classification2d)"):
+        scene = m1.get_scene_result()
+    if scene is not None and scene.classification_scores:
+        accs = scene.classification_scores[0].accuracies
+        n_res = sum(a.objects_results_num for a in accs)
+        n_gt = sum(a.num_ground_truth for a in accs)
+        exp_res = sum(sum(1 for r in e["res"].object_results if r.estimated_object.semantic_label.label.value in d["targets"] or (r.ground_truth_object is not None and r.ground_truth_object.semantic_label.label.value in d["targets"])) for e in h)
+        exp_gt = sum(sum(1 for g in e["res"].frame_ground_truth.objects if g.semantic_label.label.value in d["targets"]) for e in h)
+        ctx.require(n_gt == exp_gt, "scene-num-gt", lambda: f"classification scene counts {n_gt} ground truths, the evaluated frames hold {exp_gt}")
+        ctx.require(n_res == exp_res, "scene-num-results", lambda: f"classification scene pools {n_res} results, the evaluated frames hold {exp_res}")
